@@ -18,7 +18,7 @@ RULE = ("cases from rng(seed, 17, 0, i): object category = i mod 6 of pose / ver
         "size, other id, other edge class, other estimate kind/size, other information shape, shapes that differ but broadcast to an all-zero difference, instance of a subclass, one vertex's pose swapped after construction for its equal-size sibling class (also in graphs of 64-130 vertices), extra element, swapped order; graphs whose vertices span scales 1e-3..1e4); tol in 10^U(-12,-2); both directions evaluated. "
         "distinct = fingerprint(x, mutation); non-trivial = mutation other than copy with a decided expectation.")
 REQ = ["eval:equals-never-raises", "eval:equals-expected-true", "eval:equals-expected-false", "cat:pose", "cat:vertex", "cat:odo", "cat:lm", "cat:custom", "cat:graph", "mut:copy",
-       "mut:perturb_below", "mut:perturb_above", "mut:class_same_size", "mut:class_other_size", "mut:id", "mut:edge_class", "mut:estimate_size", "mut:broadcastable_shape", "mut:vertex_class_swapped", "mut:views_into_one_table", "class:compared_with_debug_logging_enabled", "mut:loaded_vs_built_from_its_lists", "class:copy_made_with_the_copy_module", "class:graph_64+_vertices", "mut:information_shape",
+       "mut:perturb_below", "mut:perturb_above", "mut:class_same_size", "mut:class_other_size", "mut:id", "mut:edge_class", "mut:estimate_size", "mut:broadcastable_shape", "mut:vertex_class_swapped", "mut:views_into_one_table", "class:compared_with_debug_logging_enabled", "mut:loaded_vs_built_from_its_lists", "class:copy_made_with_the_copy_module", "class:compared_then_rescaled_in_place_then_compared", "class:compared_with_fp_errors_raised", "class:graph_64+_vertices", "mut:information_shape",
        "mut:graph_extra_element", "mut:graph_order", "mut:offset", "mut:offset_id", "mut:edge_subclass", "class:graph_multi_scale", "class:default_tol_argument_omitted", "mut:ids_container", "mut:pose_subclass", "class:graphs_used_and_restored_before_comparison"]
 PLAN = {
     "quick": {"cases": 12000, "soft_s": 60, "min_nontrivial": 3000, "require": REQ},
@@ -90,6 +90,10 @@ def _two_ids(rng):
     u = rng.random()
     if u < 0.5:
         return [3, 8]
+    if u < 0.62:
+        # an id beyond the signed 64-bit range next to a small or negative one (a list like that has no common integer dtype in numpy)
+        big = 2 ** 63 + int(rng.integers(0, 2 ** 20))
+        return [big, int(rng.choice([-7, 0, 5]))] if rng.random() < 0.5 else [int(rng.choice([-7, 0, 5])), big]
     base = int(rng.choice([10 ** 5, 3 * 10 ** 6, 10 ** 9, 2 ** 53, 2 ** 62, -(10 ** 7)])) + int(rng.integers(0, 1000))
     return [base, base + int(rng.integers(1, 4))]
 
@@ -193,6 +197,23 @@ class _Plain:
         return False
 
 
+def _all_finite_moderate(o):
+    """Every number the comparison will look at is finite and of moderate size (no legitimate overflow / NaN arithmetic to be expected)."""
+    try:
+        if isinstance(o, M.Graph):
+            return all(_all_finite_moderate(v) for v in o._vertices) and all(_all_finite_moderate(e) for e in o._edges)
+        arrs = [o] if isinstance(o, M.BasePose) else [o.pose] if isinstance(o, M.Vertex) else [o.estimate, o.information, getattr(o, "offset", None)]
+        for a_ in arrs:
+            if a_ is None:
+                continue
+            v = np.atleast_1d(np.asarray(a_, dtype=float))
+            if not np.all(np.isfinite(v)) or (v.size and float(np.abs(v).max()) > 1e100):
+                return False
+        return True
+    except Exception:  # noqa: BLE001
+        return False
+
+
 def call_both(ctx, x, y, tol, expect_xy, expect_yx, feats, case):
     # a fifth of the comparisons run with the library's loggers at DEBUG (chosen from the tolerance's digits, so a replay makes the same choice)
     debug = int(repr(float(tol))[-1], 16) % 5 == 0 if repr(float(tol))[-1] in "0123456789" else False
@@ -201,8 +222,13 @@ def call_both(ctx, x, y, tol, expect_xy, expect_yx, feats, case):
         feats = dict(feats, debug_logging=True)
     for a, b, exp, direction in ((x, y, expect_xy, "x.equals(y)"), (y, x, expect_yx, "y.equals(x)")):
         try:
-            with np.errstate(all="ignore"), (M.DebugLogging() if debug else _Plain()):
+            # a third of the comparisons run with numpy's divide / invalid errors raised (an application debugging its numerics): a comparison of
+            # well-formed finite objects has no 0/0 or x/0 to perform
+            strict_fp = (int(repr(float(tol))[-2:].replace(".", "0").replace("-", "0").replace("e", "0"), 16) % 3 == 0) and _all_finite_moderate(a) and _all_finite_moderate(b)
+            with (np.errstate(divide="raise", invalid="raise", over="ignore", under="ignore") if strict_fp else np.errstate(all="ignore")), (M.DebugLogging() if debug else _Plain()):
                 res = a.equals(b) if tol == 1e-6 else a.equals(b, tol)  # the documented default is 1e-6
+            if strict_fp:
+                ctx.count("class:compared_with_fp_errors_raised")
         except Exception as ex:
             ctx.check("equals-never-raises", False, dict(feats, exception=type(ex).__name__, direction=direction), {"message": str(ex)[:200]}, case)
             continue
@@ -392,6 +418,30 @@ def elem_case(ctx, cat, rng, tol):
     else:
         ctx.count("mut:" + mut)
     case = {"category": cat, "x": spec, "y": s2, "tol": tol}
+    if mut in ("copy", "perturb") and rng.random() < 0.25:
+        # history: the two objects have been compared before, and were then both rescaled in place by a write that does not go through the pose's
+        # item assignment (p *= c / np.multiply(p, c, out=p)): the answer depends on the current numbers only (a relative comparison is scale-free)
+        try:
+            with np.errstate(all="ignore"):
+                x.equals(y, tol)
+                cfac = float(10 ** rng.uniform(-6, 6))
+                for o in (x, y):
+                    arrs = [o] if cat == "pose" else [o.pose] if cat == "vertex" else [a_ for a_ in (o.estimate, o.information) if isinstance(a_, np.ndarray)]
+                    for a_ in arrs:
+                        if isinstance(a_, (M.PoseSE2, M.PoseSE3)):
+                            continue  # a scaled angle / quaternion is another rotation, not a rescaling
+                        if rng.random() < 0.5:
+                            a_ *= cfac
+                        else:
+                            np.multiply(a_, cfac, out=a_)
+            feats = dict(feats, compared_before_then_rescaled_in_place=True)
+            ctx.count("class:compared_then_rescaled_in_place_then_compared")
+            if mut == "perturb":
+                la, lb = live_arrays(cat, x), live_arrays(cat, y)
+                r1, r2 = ratio(la[feats["array"]], lb[feats["array"]], tol), ratio(lb[feats["array"]], la[feats["array"]], tol)
+                exp_xy, exp_yx = decide(r1, tol), decide(r2, tol)
+        except Exception:  # noqa: BLE001
+            pass
     call_both(ctx, x, y, tol, exp_xy, exp_yx, feats, case)
     if mut != "copy" and (exp_xy is not None or exp_yx is not None):
         ctx.nontrivial(gen.fingerprint(case))
